@@ -3023,10 +3023,18 @@ class PyCdlib:
 
         outfp.seek(self.pvd.extent_location() * self.logical_block_size)
 
-        # First write out the PVDs.
+        # First write out the PVDs.  Every copy stamps its Volume Modification
+        # Date (bytes 830-846) with the current time when it is recorded; the
+        # copies must agree, so they all get the date of the first one even
+        # if the clock ticks in between.
+        first_pvd_rec = None
         for pvd in self.pvds:
             outfp.seek(pvd.extent_location() * self.logical_block_size)
             rec = pvd.record()
+            if first_pvd_rec is None:
+                first_pvd_rec = rec
+            else:
+                rec = rec[:830] + first_pvd_rec[830:847] + rec[847:]
             self._outfp_write_with_check(outfp, rec)
             progress.call(len(rec))
 
